@@ -12,7 +12,10 @@ package main
 
 import (
 	"fmt"
+	"os"
+	"os/exec"
 	"reflect"
+	"runtime/debug"
 	"sort"
 	"strings"
 	"unicode"
@@ -24,7 +27,42 @@ import (
 	"github.com/antonmedv/expr/parser"
 )
 
-func init() { props["C16"] = runC16 }
+func init() {
+	props["C16"] = runC16
+	props["C16-cyclic-probe"] = func(c *Ctx) { c16CyclicProbe() }
+}
+
+// ZCyc embeds a pointer to itself: legal Go, and conf.FieldsFromStruct recurses through it without end.
+type ZCyc struct {
+	Name string
+	*ZCyc
+}
+
+// c16CyclicProbe runs in a child process (a stack overflow is fatal, not a panic).
+func c16CyclicProbe() {
+	debug.SetMaxStack(16 << 20) // fail fast: the recursion is unbounded
+	env := ZCyc{Name: "a"}
+	env.ZCyc = &env
+	_, err := expr.Compile("Name", expr.Env(env))
+	fmt.Println("compiled:", err)
+	os.Exit(0)
+}
+
+func c16CyclicEmbedding(c *Ctx) {
+	cmd := exec.Command(os.Args[0], "C16-cyclic-probe")
+	cmd.Env = append(os.Environ(), "GOMAXPROCS=1", "GODEBUG=")
+	out, err := cmd.CombinedOutput()
+	c.R.Case("cyclic-pointer-embedding", true)
+	if err != nil {
+		msg := firstLine(string(out))
+		if i := strings.Index(string(out), "fatal error:"); i >= 0 {
+			msg = firstLine(string(out)[i:])
+		}
+		c.R.Violate(Violation{What: "an environment struct that embeds a pointer to itself crashes the process in conf.FieldsFromStruct (unbounded recursion)",
+			Key: "c16:cyclic-pointer-embedding-stack-overflow", Input: c16Input{"ZCyc", "main.ZCyc (struct { Name string; *ZCyc })", "Name", "Name"},
+			Expect: "Compile returns (Name resolves to the field at depth 0)", Got: msg})
+	}
+}
 
 var exprReserved = map[string]bool{
 	"true": true, "false": true, "nil": true, "not": true, "in": true, "and": true, "or": true,
@@ -542,6 +580,9 @@ func runC16(c *Ctx) {
 
 	// ---------------------------------------------------------------- 3. nested members
 	c16Nested(c, envs)
+
+	// ---------------------------------------------------------------- 4. cyclic embedding (child process)
+	c16CyclicEmbedding(c)
 
 	for _, k := range []string{"ident:accepted", "ident:rejected", "call:accepted", "member:accepted", "member:rejected", "membercall:accepted"} {
 		if c.R.Counters[k] == 0 {
